@@ -172,6 +172,39 @@ def self_validate(prop, rule_ids):
                 failures.append(m["id"])
         finally:
             shutil.rmtree(tmp, ignore_errors=True)
+    # benign variants: behaviour-preserving rewrites of the sources on which no rule of this property may fire
+    ip = os.path.join(VERIF, "selftest", "index.json")
+    benign = json.load(open(ip)).get("benign", []) if os.path.exists(ip) else []
+    for m in benign:
+        tmp = tempfile.mkdtemp(prefix="verif-benign.")
+        try:
+            r = os.path.join(tmp, "repo")
+            os.makedirs(r)
+            for x in ("src", "Cargo.toml", "Cargo.lock"):
+                sx = os.path.join(repo, x)
+                if os.path.isdir(sx):
+                    shutil.copytree(sx, os.path.join(r, x))
+                elif os.path.exists(sx):
+                    shutil.copy(sx, os.path.join(r, x))
+            pr = subprocess.run(["patch", "-p1", "-s", "-i", os.path.join(VERIF, m["patch"])], cwd=r, capture_output=True, text=True)
+            if pr.returncode != 0:
+                results.append({"benign": m["id"], "outcome": "patch-does-not-apply (source changed since the variant was recorded); skipped"})
+                continue
+            try:
+                raw, info = factsmod.extract(r, "log")
+            except factsmod.ExtractError:
+                results.append({"benign": m["id"], "outcome": "does-not-compile; skipped"})
+                continue
+            inst, _ = run_rules(Facts(raw), rule_ids, "log")
+            new, _old = classify(inst, prop)
+            und = [i for i in inst if i["status"] == "undecided"]
+            if new or und:
+                results.append({"benign": m["id"], "outcome": "FALSE-ALARM", "rules": sorted({i["rule"] for i in new + und})})
+                failures.append("benign:" + m["id"])
+            else:
+                results.append({"benign": m["id"], "outcome": "silent"})
+        finally:
+            shutil.rmtree(tmp, ignore_errors=True)
     return results, failures
 
 
@@ -320,7 +353,7 @@ def check_property(prop, rule_ids, tier, level="other", explanation="", assumpti
     if undecided:
         return 2
     if selffail:
-        print("SELFTEST-FAILED property=%s: the check does not detect recorded mutant(s) %s" % (prop, selffail))
+        print("SELFTEST-FAILED property=%s: recorded mutant(s) not detected or benign variant(s) flagged: %s" % (prop, selffail))
         return 2
     print("OK property=%s rules=%d instances=%d known=%d (%.1fs)" % (prop, len(rule_ids), len(instances), len(old_u), time.time() - t0))
     return 0
